@@ -141,6 +141,8 @@ def prog_event(tid, o, i, fl, placement):
             fn, plain_target = g['w'], g['w']
             codes = {fn.__code__}
             nomodel = True
+            # no explicit declaration is equivalent (one callee is not known / one forwards() raises): the plain signature is what remains
+            declared, agree = {'tag': 'valueerror'}, 'ps'
         elif base == 'auto_class_call':
             fn, plain_target = g['K'], g['K']
             codes = {g['K'].__call__.__code__, g['K'].__init__.__code__}
